@@ -47,13 +47,16 @@ VALS = {
     ("b", "s"): "0.5", ("b", "v"): "[0.5, 3.0, 2.0]", ("b", "m"): "[[0.5], [2.0]]",
 }
 ZERO = {"s": "0.0", "v": "[0.0, 0.0, 0.0]", "m": "[[0.0], [0.0]]"}
+# partly zero: some but not all elements zero (the boundary of the documented zero exception)
+PARTZERO = {"v": "[0.0, 3.0, 2.0]", "m": "[[0.0], [2.0]]"}
 INTS = {("a", "s"): "3", ("a", "v"): "[3, 5, 8]", ("a", "m"): "[[3], [5]]",
         ("b", "s"): "2", ("b", "v"): "[2, 7, 4]", ("b", "m"): "[[2], [7]]"}
 
 # operand kinds (the nine of the property, with the variants that reach different code)
 KINDS = ["same", "samedim", "diffdim", "dimless", "percent", "scalar", "barearr",
          "zero_scalar", "zero_arr", "zero_list", "listq", "listq_other", "listq_zero_other",
-         "zero_unyt", "zero_unyt_other", "barelist", "same_int", "other_int"]
+         "zero_unyt", "zero_unyt_other", "barelist", "same_int", "other_int",
+         "partzero_arr", "partzero_list", "partzero_int", "listq_partzero_other", "listq_partzero", "partzero_unyt_other"]
 MAIN9 = ["same", "samedim", "diffdim", "dimless", "percent", "scalar", "barearr", "zero_arr", "listq"]
 
 
@@ -91,6 +94,17 @@ def operand_src(kind, which, shape, fam):
         return z if shape != "s" else None
     if kind == "barelist":
         return v if shape != "s" else None
+    if kind in ("partzero_arr", "partzero_list", "partzero_int", "partzero_unyt_other"):
+        if shape == "s":
+            return None
+        pz = PARTZERO[shape]
+        if kind == "partzero_arr":
+            return f"np.array({pz})"
+        if kind == "partzero_int":
+            return "np.arange(3)" if shape == "v" else "np.array([[0], [2]])"
+        if kind == "partzero_unyt_other":
+            return ua(pz, uB)
+        return pz
     if kind == "zero_unyt":
         return ua(z, uA)
     if kind == "zero_unyt_other":
@@ -108,6 +122,10 @@ def operand_src(kind, which, shape, fam):
         return f"[unyt_quantity(_v, {uB!r}) for _v in {items}]"
     if kind == "listq_zero_other":
         return f"[unyt_quantity(0.0, {uB!r}) for _v in {items}]"
+    if kind == "listq_partzero_other":
+        return f"[unyt_quantity(_v, {uB!r}) for _v in {PARTZERO['v']}]"
+    if kind == "listq_partzero":
+        return f"[unyt_quantity(_v, {uA!r}) for _v in {PARTZERO['v']}]"
     raise KeyError(kind)
 
 
@@ -482,19 +500,22 @@ class Ufuncs:
                 for ka, kb in itertools.product(KINDS, KINDS):
                     main = ka in MAIN9 and kb in MAIN9
                     if form == "inplace" and ka not in ("same", "samedim", "diffdim", "dimless", "percent", "barearr", "zero_arr",
-                                                        "zero_unyt", "zero_unyt_other", "same_int", "other_int"):
+                                                        "zero_unyt", "zero_unyt_other", "same_int", "other_int",
+                                                        "partzero_arr", "partzero_int", "partzero_unyt_other"):
                         continue
                     if form in ("inplace", "out") and not (main or "int" in ka or "int" in kb or "zero" in ka + kb or "listq" in ka + kb):
                         continue
-                    if form == "outer" and not main:
+                    if form == "outer" and not (main or "partzero" in ka + kb):
                         continue
-                    if "int" in ka + kb and form not in ("inplace", "out", "call"):
+                    if ("same_int" in (ka, kb) or "other_int" in (ka, kb)) and form not in ("inplace", "out", "call"):
                         continue
                     # which families / shapes
                     if thorough and (checked or main):
                         sel = [(f, s) for f in range(len(fams)) for s in range(3)]
                     elif thorough:
                         sel = [(f, (counter + f) % 3) for f in range(len(fams))]
+                    elif checked and form in ("call", "operator", "inplace", "out", "outer") and "partzero" in ka + kb and (ka in MAIN9 or kb in MAIN9):
+                        sel = [(f, (counter + f + self.seed) % 3) for f in range(len(fams))]
                     elif checked and main and form in ("call", "operator"):
                         sel = [(f, (counter + f + self.seed) % 3) for f in range(len(fams))]
                     else:
@@ -543,7 +564,8 @@ class Ufuncs:
             reps[d] = good[0]
         dims = sorted(reps)
         kinds = [("same", "diffdim"), ("diffdim", "same"), ("same", "listq_other"), ("listq_other", "same"),
-                 ("zero_unyt", "diffdim"), ("same", "other_int")]
+                 ("zero_unyt", "diffdim"), ("same", "other_int"), ("same", "listq_partzero_other"),
+                 ("listq_partzero_other", "same"), ("same", "partzero_arr"), ("partzero_list", "same")]
         unames = sorted(self.ref_canon & set(self.registry))
         for da in dims:
             for db in dims:
@@ -1127,7 +1149,8 @@ AF = [
 # handlers that check with _validate_units_consistency_v2 (plain numbers pass unchecked)
 V2_FUNCS = {"clip", "fill_diagonal", "insert", "place", "put", "put_along_axis", "putmask", "searchsorted", "select"}
 
-AF_KINDS = ["same", "samedim", "diffdim", "dimless", "percent", "scalar", "barearr", "zero_arr", "zero_scalar", "listq_other"]
+AF_KINDS = ["same", "samedim", "diffdim", "dimless", "percent", "scalar", "barearr", "zero_arr", "zero_scalar", "listq_other",
+            "partzero_arr", "partzero_unyt_other", "listq_partzero_other"]
 
 
 def run_array_functions(chk, E, tier, seed, handled):
@@ -1142,8 +1165,14 @@ def run_array_functions(chk, E, tier, seed, handled):
                     Sq = operand_src(kind, "b", "s", fam)
                     if kind in ("barearr", "zero_arr"):
                         Sq = "0.5" if kind == "barearr" else "0.0"
-                    if S is None or Sq is None:
+                    if kind == "partzero_arr":
+                        Sq = "np.array([0.0, 3.0, 2.0])"      # an array-valued side argument that contains a zero
+                    if kind == "partzero_unyt_other":
+                        Sq = f"unyt_array(np.array([0.0, 3.0, 2.0]), {uB!r})"
+                    if S is None or (Sq is None and "Sq" in tmpl):
                         continue
+                    if Sq is None:
+                        Sq = "None"
                     if swap:
                         # the unit-carrying primary in the secondary's place: only for symmetric templates
                         if "Sq" in tmpl or "P[0]" in tmpl or "lambda d" in tmpl or "np.sort(S)" in tmpl or kind in ("scalar", "zero_scalar"):
@@ -1183,6 +1212,8 @@ def run_array_functions(chk, E, tier, seed, handled):
                     if st[0] == "ok":
                         argname = group[-1]
                         skind = "bare" if is_bare(E, sec) else "quantity"
+                        if any(isinstance(x_, (list, tuple)) and not is_bare(E, x_) for x_ in (prim, sec)):
+                            skind = "quantity-list"
                         key = f"arrayfunc|{fname}|{argname}|{skind}"
                         if fname in V2_FUNCS and isinstance(sec, (int, float)):
                             # one defect: _validate_units_consistency_v2 takes plain numbers to carry the reference unit
@@ -1284,7 +1315,8 @@ def run_setitem_to(chk, E, tier, seed):
             exp.append(("to", (a, b), res["to"], None, None))
     # bare values into a dimensional array
     for a in ("m", "K", "dimensionless"):
-        for vsrc, vk in (("7.0", "bare-nonzero"), ("0.0", "bare-zero"), ("np.array([7.0, 8.0, 9.0])", "bare-nonzero")):
+        for vsrc, vk in (("7.0", "bare-nonzero"), ("0.0", "bare-zero"), ("np.array([7.0, 8.0, 9.0])", "bare-nonzero"),
+                         ("np.array([0.0, 8.0, 9.0])", "bare-nonzero"), ("np.array([0.0, 0.0, 0.0])", "bare-zero")):
             setup = f"x = unyt_array([1.0, 2.0, 3.0], {a!r})\nv = {vsrc}\n"
             stmt = "x[:] = v" if "array" in vsrc else "x[0] = v"
             ns = dict(E.ns)
@@ -1524,7 +1556,7 @@ def run(tier, seed):
     run_setitem_to(chk, E, tier, seed)
     run_witnesses(chk, E)
     rule = ("enumerated: every _ufunc_registry entry x {__call__, out=, outer, operator, in-place operator, reduce, accumulate, "
-            "reduce(initial=), reduceat} x ordered pairs of 18 operand kinds (the property's nine and variants) x 6 dimension "
+            "reduce(initial=), reduceat} x ordered pairs of 24 operand kinds (the property's nine and variants incl. partly-zero bare arrays, lists and lists of quantities) x 6 dimension "
             "families x 5 shape combinations (quick: one family/shape per combination, all families for the "
             "commensurability-requiring ufuncs on the nine main kinds; thorough: all, plus every ordered pair of distinct "
             "registry dimensions); array functions with >= 2 value operands x 10 operand kinds; __setitem__/.to() over unit "
